@@ -140,6 +140,60 @@ def children_facts(H, x):
     ))
 
 
+def C_idx(H, x):
+    """position of x in C(parent(x))"""
+    args = H._shape_args()
+    f = z3.Function("C_idx", *([a.sort() for a in args] + [IntS, IntS]))
+    return VInt(f(*(args + [x.t])))
+
+
+def wf_theory(H):
+    """What 'x is a node of a well-formed tree' (WF) means, with the ghost functions of DESIGN 3.3:
+    depth (distance to the root), anc(x, d) (ancestor of x at depth d), pos (index in the stored child list),
+    C / C_idx (children ordered by least token).  Every real well-formed tree admits such functions
+    (validated on enumerated trees by bounded/c19.py, clause ghost_axioms); assumed as part of the precondition
+    'the tree is well formed'."""
+    x, k, d = z3.Int(fresh_name("wx")), z3.Int(fresh_name("wk")), z3.Int(fresh_name("wd"))
+    wf = lambda r: tobool(WF(H, VRef(r)))
+    par = H.parent_t
+    dep = lambda r: H.depth(VRef(r)).t
+    anc = lambda r, dd: H.anc(VRef(r), VInt(dd)).t
+    pos = lambda r: H.pos(VRef(r)).t
+    cel = lambda r, i: H.ochildren(VRef(r)).get(i).t
+    clen = lambda r: H.ochildren(VRef(r)).n
+    cidx = lambda r: C_idx(H, VRef(r)).t
+    from pyvc.sym import qforall
+    return VBool(z3.And(
+        # (1) local facts; mentions neither parent(x) nor children, so it does not feed itself
+        qforall([x], z3.Implies(wf(x), z3.And(
+            x != 0, dep(x) >= 0, anc(x, dep(x)) == x, clen(x) == H.nchild_t(x))), [wf(x)]),
+        # (2) upwards, only where the term parent[x] occurs
+        qforall([x], z3.Implies(wf(x), z3.And(
+            (par(x) == 0) == (dep(x) == 0),
+            z3.Implies(par(x) != 0, z3.And(
+                wf(par(x)), dep(x) == dep(par(x)) + 1,
+                0 <= pos(x), pos(x) < H.nchild_t(par(x)), H.child_t(par(x), pos(x)) == x,
+                0 <= cidx(x), cidx(x) < clen(par(x)), cel(par(x), cidx(x)) == x)))), [[wf(x), par(x)]]),
+        # (3) downwards through the stored child list
+        qforall([x, k], z3.Implies(z3.And(wf(x), 0 <= k, k < H.nchild_t(x)), z3.And(
+            wf(H.child_t(x, k)), par(H.child_t(x, k)) == x, pos(H.child_t(x, k)) == k)),
+            [[wf(x), H.child_t(x, k)]]),
+        # (4) downwards through the ordered child list C
+        qforall([x, k], z3.Implies(z3.And(wf(x), 0 <= k, k < clen(x)), z3.And(
+            wf(cel(x, k)), par(cel(x, k)) == x, cidx(cel(x, k)) == k, cel(x, k) != 0)), [[wf(x), cel(x, k)]]),
+        # (5) ancestors
+        qforall([x, d], z3.Implies(z3.And(wf(x), 0 <= d, d <= dep(x)), z3.And(
+            wf(anc(x, d)), dep(anc(x, d)) == d)), [[wf(x), anc(x, d)]]),
+        qforall([x, d, k], z3.Implies(z3.And(wf(x), 0 < d, d <= dep(x), k == d - 1),
+                                      anc(x, k) == par(anc(x, d))), [[wf(x), anc(x, d), anc(x, k)]]),
+    ))
+
+
+def desc(H, n, x):
+    """n dominates x (reflexive): depth n <= depth x and anc(x, depth n) == n"""
+    return VBool(z3.And(H.depth(n).t <= H.depth(x).t, H.anc(x, H.depth(n)).t == n.t))
+
+
 def list_eq(a, b):
     j = z3.Int(fresh_name("le"))
     return VBool(z3.And(a.n == b.n, z3.ForAll([j], z3.Implies(z3.And(0 <= j, j < a.n),
